@@ -44,6 +44,11 @@ impl CountMinRow {
         // zero each counter
         self.0.iter_mut().for_each(|v| *v = 0)
     }
+
+    #[cfg(feature = "verif-hooks")]
+    pub(crate) fn verif_bytes(&self) -> &[u8] {
+        &self.0
+    }
 }
 
 impl Index<usize> for CountMinRow {
